@@ -98,6 +98,27 @@ def spec_iso(s):
     return tot if (r == "" and any_) else None
 
 
+def iso_extended(s):
+    """A well-formed ISO-8601 duration BEYOND the documented PTxHyMzS form (weeks, days, a decimal fraction in the last
+    component): its meaning in seconds as a Fraction, else None.  The property lists PTxHyMzS as the accepted ISO
+    spelling and wants malformed strings rejected; a well-formed duration of this wider class is neither: the code
+    may refuse it (it does) or accept it with its ISO meaning."""
+    from fractions import Fraction
+    import re
+    m = re.fullmatch(r"P(?:(\d+)W)?(?:(\d+)D)?(?:T(?:(\d+)H)?(?:(\d+)M)?(?:(\d+(?:[.,]\d+)?)S)?)?", s, flags=re.ASCII)
+    m2 = re.fullmatch(r"P(?:(\d+)D)?T(?:(\d+(?:[.,]\d+)?)H|(?:(\d+)H)?(\d+(?:[.,]\d+)?)M)", s, flags=re.ASCII)
+    if m and any(g is not None for g in m.groups()) and not s.endswith("T"):
+        w, dd, h, mi, se = m.groups()
+        return (Fraction(int(w or 0)) * 604800 + Fraction(int(dd or 0)) * 86400 + Fraction(int(h or 0)) * 3600 + Fraction(int(mi or 0)) * 60
+                + Fraction((se or "0").replace(",", ".")))
+    if m2:
+        dd, hf, h, mf = m2.groups()
+        if hf is not None:
+            return Fraction(int(dd or 0)) * 86400 + Fraction(hf.replace(",", ".")) * 3600
+        return Fraction(int(dd or 0)) * 86400 + Fraction(int(h or 0)) * 3600 + Fraction(mf.replace(",", ".")) * 60
+    return None
+
+
 def sec(t):
     return int((np.datetime64(t, "s") - rf.EPOCH) / np.timedelta64(1, "s"))
 
@@ -129,6 +150,19 @@ def eval_case(desc, ctx):
         except ValueError:
             got = None
         oracle = None
+        ext = iso_extended(text) if (sk == "str" and want is None) else None
+        if ext is not None:
+            # well-formed ISO-8601 outside the documented PTxHyMzS form: refusing it is fine, accepting it is fine as long
+            # as the value is its ISO meaning; not part of the correspondence (the model is the recogniser as coded)
+            if got is not None and got != ext:
+                oracle = f"normalize_period({arg!r}) = {got}, this ISO-8601 duration denotes {ext} s"
+            return {"ints": None, "oracle": oracle, "nontrivial": None, "kind": "period-str-iso-extended", "observed": got}
+        if sk == "list" and desc.get("bad_value") and got is not None:
+            # a fractional value with a legal unit: the code refuses it; accepting it with its exact meaning (a whole
+            # number of seconds) would denote the same duration and is not a violation — and not the modelled recogniser
+            unit = {"s": 1, "m": 60, "h": 3600, "D": 86400}.get(desc["text"])
+            if unit is not None and (2 * v + 1) * unit % 2 == 0 and got == (2 * v + 1) * unit // 2:
+                return {"ints": None, "oracle": None, "nontrivial": None, "kind": "period-list-fraction-accepted", "observed": got}
         if got != want:
             oracle = f"normalize_period({arg!r}) = {got}, the spelling denotes {want}"
         ints = [2, code, v, 0 if got is None else 1, 0 if got is None else got] + [ord(ch) for ch in text]
